@@ -38,12 +38,26 @@ def gen_history(streams, tier, profile):
     nedits = 0
     ents = gen.entries(cur)
     styles = profile.get("styles", ["eval", "eval", "call"])
+    pla = profile.get("p_load_after", 0.0)
+    seen_paths = []
+
+    def loads_after():
+        for p in gen.all_paths(cur):
+            if p not in seen_paths:
+                seen_paths.append(p)
+        if pla and hrng.random() < pla:
+            k = hrng.randint(1, 4)
+            for p in hrng.sample(seen_paths, min(k, len(seen_paths))):
+                ops.append({"op": "load", "path": p, "fresh": hrng.random() < 0.4, "file": hrng.random() < 0.5})
+
     ops.append({"op": "eval", "entry": hrng.choice(ents), "style": hrng.choice(styles)})
+    loads_after()
     while len(ops) < n:
         r = hrng.random()
         if r < 0.45:
             ents = gen.entries(cur)
             ops.append({"op": "eval", "entry": hrng.choice(ents), "style": hrng.choice(styles)})
+            loads_after()
         elif r < 0.75:
             e = gen.gen_edit(hrng, cur, edit_kinds)
             cur = gen.apply_edit(cur, e)
@@ -67,6 +81,7 @@ def gen_history(streams, tier, profile):
             ops.append({"op": "chdir"})
     # always end with an evaluation after the last change
     ops.append({"op": "eval", "entry": hrng.choice(gen.entries(cur)), "style": hrng.choice(styles)})
+    loads_after()
     return {"prog": prog, "feat": feat, "store": store, "ops": ops, "options": []}
 
 
